@@ -3916,6 +3916,25 @@ impl Zeroconf {
                     i += 1;
                 }
 
+                // Remove pending follow-up queries for instances of this type, and
+                // what was known about them - unless another search (e.g. of a
+                // subtype) still covers the type.
+                let (base_ty, _) = crate::service_info::split_sub_domain(&ty);
+                let still_searched = self
+                    .service_queriers
+                    .keys()
+                    .any(|other| crate::service_info::split_sub_domain(other).0 == base_ty);
+                if !still_searched {
+                    let suffix = format!(".{base_ty}");
+                    self.retransmissions.retain(|rerun| {
+                        !matches!(&rerun.command,
+                            Command::Resolve(instance, _) if instance.ends_with(&suffix))
+                    });
+                    self.pending_resolves
+                        .retain(|instance| !instance.ends_with(&suffix));
+                    self.resolved.retain(|instance| !instance.ends_with(&suffix));
+                }
+
                 // Remove cache entries.
                 self.cache.remove_service_type(&ty_domain);
 
